@@ -6,6 +6,7 @@ import (
 	"fmt"
 	"reflect"
 	"runtime"
+	"strings"
 	"sync"
 	"sync/atomic"
 	"time"
@@ -16,6 +17,7 @@ import (
 
 	"verif/internal/fakejwks"
 	"verif/internal/mon"
+	"verif/internal/sched"
 )
 
 // ---- specification of a round (pure function of seed and case index) -------------------------------------------------------
@@ -64,9 +66,15 @@ func (c *deadlineCtx) fire() {
 // action is one step of the harness within a phase. Unless NoSettle is set the harness waits, after the step, until the
 // system is quiescent: every launched caller has returned or is parked in keysFromRemote, and every download goroutine
 // is parked at a closed gate of the fake endpoint.
+//
+// "arrive-held" starts caller I and holds it at the K-th yield point it passes inside the library (the spans the key set
+// opens are yield points, internal/sched): the caller is preempted THERE - between two steps of VerifySignature - while
+// the following actions (other arrivals, cancellations, releases) take place, until "resume" lets it continue. A caller
+// that blocks or returns before its K-th point is simply parked / returned (and is held later, should it get there).
 type action struct {
-	Op       string `json:"op"` // arrive | cancel | release | settle
-	I        int    `json:"i"`  // caller index (arrive, cancel) or download index (release)
+	Op       string `json:"op"` // arrive | arrive-held | resume | cancel | release | settle
+	I        int    `json:"i"`  // caller index (arrive, arrive-held, resume, cancel) or download index (release)
+	K        int    `json:"k,omitempty"`
 	NoSettle bool   `json:"no_settle,omitempty"`
 }
 
@@ -106,7 +114,23 @@ type callRec struct {
 	CallSeq     int64  `json:"call"`
 	RetSeq      int64  `json:"ret"`
 	CancelSeq   int64  `json:"cancel,omitempty"` // stamp taken just before cancel() (0: never cancelled by the schedule)
-	CancelPoint string `json:"cancel_point,omitempty"`
+	// CancelDoneSeq: stamp taken after cancel() returned. Ending a context closes its Done channel and makes every
+	// goroutine waiting on it (or on a context derived from it) runnable before cancel() returns.
+	CancelDoneSeq int64  `json:"cancel_returned,omitempty"`
+	CancelPoint   string `json:"cancel_point,omitempty"`
+	// IgnoredCancelSeq: stamp of a snapshot, taken after cancel() had returned and confirmed by the following ones while
+	// nothing else in the process could move, in which this caller was still blocked inside VerifySignature waiting for a
+	// download: it does not wait on its own context.
+	IgnoredCancelSeq int64  `json:"still_waiting_after_own_context_ended_at,omitempty"`
+	IgnoredWhere     string `json:"still_waiting_in,omitempty"`
+	// NeverReturned: at the end of the phase (every context ended, nothing left that could wake it) the call was still
+	// blocked; call/ret/ok are not available.
+	NeverReturned bool `json:"never_returned,omitempty"`
+	// held at a yield point by the schedule (arrive-held)
+	HoldK     *int   `json:"hold_at_yield_point,omitempty"`
+	HeldAt    string `json:"held_at,omitempty"`  // name of the point it was held at ("" = it never got there)
+	HeldSeq   int64  `json:"held,omitempty"`     // stamp taken when it reached the point
+	ResumeSeq int64  `json:"resumed,omitempty"` // stamp taken when the schedule let it continue
 	ByDeadline  bool   `json:"ctx_ends_by_deadline,omitempty"`
 	OK          bool   `json:"ok"`
 	Err         string `json:"err,omitempty"`
@@ -125,6 +149,14 @@ type callRec struct {
 	parked    bool // at the last settle
 	wasParked bool // parked at the last settle, but a gate was opened since
 	topKFR    bool // at the last dump: blocked with keysFromRemote on top of its stack
+	held      bool // at the last dump: blocked at its yield point
+	stuck     bool // at the last dump: blocked in keysFromRemote / at the endpoint although its context has ended
+
+	heldSeq     atomic.Int64  // set by the preemption helper when the caller reached its point
+	resume      chan struct{} // closed by "resume"
+	resumed     bool
+	preemptDone chan struct{} // closed when sched.Preempt returned (preRes is valid)
+	preRes      sched.Result
 }
 
 type phaseRec struct {
@@ -138,7 +170,11 @@ type phaseRec struct {
 	Quiet     []int64             `json:"quiescent_without_download_goroutine_at"`
 	MaxParked int                 `json:"max_parked_on_one_download"`
 	Deadlock  string              `json:"deadlock,omitempty"`
-	Watchdog  bool                `json:"watchdog,omitempty"`
+	// Overlap: a quiescent snapshot with more than one download of this key set in flight (the round stops there: the
+	// gates stay closed, what two download goroutines do to one key set when they finish is not this check's subject)
+	Overlap  string `json:"downloads_in_flight_together,omitempty"`
+	Watchdog bool   `json:"watchdog,omitempty"`
+	Frozen   string `json:"frozen,omitempty"` // nothing could move, in a state the harness does not know (inconclusive)
 }
 
 type roundRec struct {
@@ -155,6 +191,8 @@ type roundExec struct {
 	ksPtr  uintptr
 	srv    *fakejwks.Server
 	gids   map[int64]bool // caller goroutines of the whole round
+	base   map[int64]bool // goroutines that existed before the round (the process's own, leftovers of abandoned rounds)
+	self   int64          // the goroutine that executes the round
 	cache  int            // shape index the model says is cached at the barrier (-1: nothing)
 	unsure bool           // ... or nothing at all: a well-formed but EMPTY set was downloaded since (grey: the statement is silent)
 	nextID int
@@ -162,7 +200,16 @@ type roundExec struct {
 
 var allAlgs = []jose.SignatureAlgorithm{jose.RS256, jose.RS384, jose.RS512, jose.PS256, jose.PS384, jose.PS512, jose.ES256, jose.ES384, jose.ES512, jose.EdDSA}
 
-const watchdog = 180 * time.Second
+// watchdog bounds the wait for quiescence. Its expiry is inconclusive for the round, never a verdict. Hangs that are
+// *states* (nothing of the process can move) are recognised on the snapshots within milliseconds (settle: frozen); the
+// watchdog is only reached by a round that keeps running without getting anywhere.
+const watchdog = 20 * time.Second
+
+const (
+	confirmSnapshots = 5                    // consecutive snapshots that must show a caller ignoring its own cancellation
+	frozenSnapshots  = 8                    // consecutive snapshots in which nothing could move, before the round is given up
+	confirmPause     = 2 * time.Millisecond // between them
+)
 
 func newRoundExec(spec roundSpec) *roundExec {
 	srv := fakejwks.New()
@@ -173,14 +220,16 @@ func newRoundExec(spec roundSpec) *roundExec {
 		ks = rp.NewRemoteKeySet(srv.Client(), "https://op.example/jwks")
 	}
 	srv.SetAltBody(foreignDocument())
-	return &roundExec{ks: ks, ksPtr: reflect.ValueOf(ks).Pointer(), srv: srv, gids: map[int64]bool{}, cache: -1}
+	rx := &roundExec{ks: ks, ksPtr: reflect.ValueOf(ks).Pointer(), srv: srv, gids: map[int64]bool{}, cache: -1, base: map[int64]bool{}, self: myGID()}
+	for id := range takeSnapshot(mon.Seq()).gs {
+		rx.base[id] = true
+	}
+	return rx
 }
 
-func (rx *roundExec) launch(c *callRec) {
-	c.Launched = true
-	c.done = make(chan struct{})
-	started := make(chan struct{})
-	go func() {
+// body is what a caller goroutine does.
+func (rx *roundExec) body(c *callRec, started chan struct{}) func() {
+	return func() {
 		c.gid = myGID()
 		close(started)
 		compact := c.Tok.compact()
@@ -209,24 +258,84 @@ func (rx *roundExec) launch(c *callRec) {
 		}
 		c.returned.Store(true)
 		close(c.done)
+	}
+}
+
+func (rx *roundExec) launch(c *callRec) {
+	c.Launched = true
+	c.done = make(chan struct{})
+	started := make(chan struct{})
+	go rx.body(c, started)()
+	<-started
+	rx.gids[c.gid] = true
+}
+
+// launchHeld starts the caller and has it parked at the k-th yield point it passes (sched.Preempt); the "mid" of the
+// preemption is everything the schedule does until resume.
+func (rx *roundExec) launchHeld(c *callRec, k int) {
+	c.Launched = true
+	c.done = make(chan struct{})
+	c.resume = make(chan struct{})
+	c.preemptDone = make(chan struct{})
+	c.HoldK = &k
+	started := make(chan struct{})
+	go func() {
+		c.preRes = sched.Preempt(k, rx.body(c, started), func() {
+			if !c.returned.Load() {
+				c.heldSeq.Store(mon.Seq())
+			}
+			<-c.resume
+		}, time.Hour)
+		close(c.preemptDone)
 	}()
 	<-started
 	rx.gids[c.gid] = true
 }
 
+func (c *callRec) doResume() {
+	if c.resume != nil && !c.resumed {
+		c.resumed = true
+		c.ResumeSeq = mon.Seq()
+		close(c.resume)
+	}
+}
+
+// heldNow: the caller sits at its yield point and the schedule has not let it go yet.
+func (c *callRec) heldNow() bool { return c.resume != nil && !c.resumed && c.heldSeq.Load() != 0 }
+
 type settleResult struct {
 	quiescent bool
-	parked    int
+	parked    int // callers with live contexts waiting for a download
+	stuck     int // callers waiting for a download although their own context has ended
+	held      int // callers held at a yield point by the schedule
 	spawned   int
 	atGate    int
 	deadlock  bool
 	timedOut  bool
+	frozen    bool
+	where     string // frozen: where the goroutines of the round are
 }
 
-// settle polls goroutine dumps until the phase is quiescent (see action). Time is used for pacing the polls and for the
-// watchdog only; the result is a statement about one consistent snapshot.
+// settle polls goroutine dumps until the phase is quiescent: every launched caller has returned, or is parked in
+// keysFromRemote, or is held at its yield point by the schedule, and every goroutine the key set started is parked at a
+// closed gate of the fake endpoint. Time is used for pacing the polls and for the watchdog only; the result is a
+// statement about consistent snapshots.
+//
+// Goroutines of the round are told from the rest of the process by birth: whatever did not exist when the round began
+// and is not one of its callers was started by the library on behalf of a caller (or by the context / http packages on
+// the library's behalf). Those with a library frame (or at the endpoint) are download goroutines, whoever created them.
+//
+// A caller whose context has ended (cancel() returned before the snapshot began) and that is nevertheless blocked in
+// keysFromRemote's select or at the endpoint does not wait on its own context: the cancellation made every goroutine
+// waiting on that context runnable before it returned. This is recorded as a fact of the call once confirmSnapshots
+// consecutive snapshots show it while no other goroutine of the process can move (nothing is on its way to wake it);
+// the caller then counts as parked and the schedule goes on.
+//
+// If nothing of the process can move in a state that is not quiescent (a lock nobody releases, a goroutine waiting at a
+// place the harness does not know), waiting longer cannot help: the round is given up as *frozen* (inconclusive).
 func (rx *roundExec) settle(ph *phaseRec) settleResult {
 	deadline := time.Now().Add(watchdog)
+	confirm, frozen := 0, 0
 	for iter := 0; ; iter++ {
 		// Pacing only (no verdict depends on it): a dump is expensive, and quiescence is impossible - short of a deadlock -
 		// while some caller is still out and nothing waits at a gate, so give the callers a moment before dumping.
@@ -234,7 +343,7 @@ func (rx *roundExec) settle(ph *phaseRec) settleResult {
 		for spin := 0; spin < 400; spin++ {
 			pending = 0
 			for _, c := range ph.Calls {
-				if c.Launched && !c.returned.Load() {
+				if c.Launched && !c.returned.Load() && !c.heldNow() && c.IgnoredCancelSeq == 0 {
 					pending++
 				}
 			}
@@ -252,27 +361,47 @@ func (rx *roundExec) settle(ph *phaseRec) settleResult {
 		}
 		snap := takeSnapshot(mon.Seq())
 		res := settleResult{quiescent: true}
-		for _, g := range snap.gs {
-			if g.spawnedByKeySet() && rx.gids[g.parent] {
+		movable := 0 // goroutines of the process, other than this one, that can continue by themselves
+		var where []string
+		for id, g := range snap.gs {
+			if id == rx.self {
+				continue
+			}
+			if !g.stable() {
+				movable++
+			}
+			if rx.base[id] || rx.gids[id] {
+				continue
+			}
+			switch {
+			case g.inLib || g.atGate:
 				res.spawned++
 				if g.atGate && g.blocked() {
 					res.atGate++
 				} else {
 					res.quiescent = false
+					where = append(where, fmt.Sprintf("goroutine started by the key set [%s] in %s", g.state, g.libTop))
 				}
+			case !g.stable():
+				res.quiescent = false
 			}
 		}
 		parkedKFR := 0
 		callerAtGate := 0
+		stuckAtGate := 0
 		for _, c := range ph.Calls {
-			c.parked, c.wasParked, c.topKFR = false, false, false
+			c.parked, c.wasParked, c.topKFR, c.held, c.stuck = false, false, false, false, false
 			if !c.Launched || c.returned.Load() {
 				continue
 			}
 			g := snap.gs[c.gid]
+			ended := c.CancelDoneSeq != 0 && c.CancelDoneSeq < snap.seq
 			switch {
 			case g == nil:
 				res.quiescent = false // finished between flag read and dump; will be seen as returned next time
+			case g.blocked() && g.atSched:
+				c.held = true
+				res.held++
 			case g.blocked() && g.topKFR && c.CancelSeq == 0:
 				c.parked = true
 				c.topKFR = true
@@ -280,24 +409,66 @@ func (rx *roundExec) settle(ph *phaseRec) settleResult {
 			case g.blocked() && g.atGate && c.CancelSeq == 0:
 				c.parked = true // a library that downloads on the caller's own goroutine
 				callerAtGate++
+			case g.blocked() && (g.topKFR || g.atGate) && ended:
+				c.stuck = true
+				res.stuck++
+				if g.atGate {
+					stuckAtGate++
+				}
 			default:
 				res.quiescent = false
+				where = append(where, fmt.Sprintf("caller %d [%s] in %s", c.ID, g.state, g.libTop))
 			}
 		}
 		res.parked = parkedKFR + callerAtGate
-		if res.quiescent && res.atGate+callerAtGate != rx.srv.Waiting() {
+		if res.quiescent && res.atGate+callerAtGate+stuckAtGate != rx.srv.Waiting() {
 			res.quiescent = false
+		}
+		if res.quiescent && res.stuck > 0 {
+			news := 0
+			for _, c := range ph.Calls {
+				if c.stuck && c.IgnoredCancelSeq == 0 {
+					news++
+				}
+			}
+			if news > 0 {
+				if movable == 0 {
+					confirm++
+				} else {
+					confirm = 0
+				}
+				if confirm < confirmSnapshots {
+					if time.Now().After(deadline) {
+						res.timedOut = true
+						return res
+					}
+					time.Sleep(confirmPause)
+					continue
+				}
+				for _, c := range ph.Calls {
+					if c.stuck && c.IgnoredCancelSeq == 0 {
+						c.IgnoredCancelSeq = snap.seq
+						c.IgnoredWhere = "keysFromRemote"
+						if g := snap.gs[c.gid]; g != nil && g.atGate {
+							c.IgnoredWhere = "the JWKS request"
+						}
+					}
+				}
+			}
 		}
 		if res.quiescent {
 			for _, c := range ph.Calls {
 				if c.parked && c.topKFR && c.ParkedSeq == 0 {
 					c.ParkedSeq = snap.seq
 				}
+				if c.held && c.HeldSeq == 0 {
+					c.HeldSeq = c.heldSeq.Load()
+				}
 			}
-			if parkedKFR > 0 && res.spawned == 0 && callerAtGate == 0 {
+			if parkedKFR > 0 && res.spawned == 0 && callerAtGate == 0 && res.held == 0 {
 				res.deadlock = true
 			}
-			if res.spawned == 0 && callerAtGate == 0 {
+			if res.spawned == 0 && callerAtGate == 0 && stuckAtGate == 0 {
 				ph.Quiet = append(ph.Quiet, mon.Seq())
 			}
 			if res.spawned+callerAtGate == 1 && parkedKFR > ph.MaxParked {
@@ -305,12 +476,27 @@ func (rx *roundExec) settle(ph *phaseRec) settleResult {
 			}
 			return res
 		}
-		_ = pending
+		confirm = 0
+		if movable == 0 {
+			frozen++
+		} else {
+			frozen = 0
+		}
+		if frozen >= frozenSnapshots {
+			res.frozen = true
+			res.where = strings.Join(where, "; ")
+			if res.where == "" {
+				res.where = fmt.Sprintf("%d requests wait at the endpoint, %d goroutines of the round seen there", rx.srv.Waiting(), res.atGate+callerAtGate+stuckAtGate)
+			}
+			return res
+		}
 		if time.Now().After(deadline) {
 			res.timedOut = true
 			return res
 		}
 		switch {
+		case frozen > 0:
+			time.Sleep(confirmPause)
 		case iter < 4:
 			runtime.Gosched()
 		case iter < 50:
@@ -327,6 +513,8 @@ func (rx *roundExec) cancelPoint(ph *phaseRec, c *callRec) string {
 		return "before-call"
 	case c.returned.Load():
 		return "after-return"
+	case c.heldNow():
+		return "held-at-yield-point"
 	case c.parked:
 		for _, d := range rx.srv.Log() {
 			if d.EndSeq == 0 && d.Owner == c.ID {
@@ -341,7 +529,7 @@ func (rx *roundExec) cancelPoint(ph *phaseRec, c *callRec) string {
 	return "racing"
 }
 
-// runPhase executes one phase and returns its record. ok=false: watchdog (the round is abandoned, inconclusive).
+// runPhase executes one phase and returns its record. ok=false: watchdog / frozen (the round is abandoned, inconclusive).
 func (rx *roundExec) runPhase(ps phaseSpec) (*phaseRec, bool) {
 	ph := &phaseRec{Spec: ps, C0: rx.cache, C0N: shapeName(rx.cache), C0Unsure: rx.unsure}
 	rx.srv.BeginPhase(document(ps.Shape), ps.Script, ps.Def)
@@ -358,29 +546,47 @@ func (rx *roundExec) runPhase(ps phaseSpec) (*phaseRec, bool) {
 		}
 		ph.Calls = append(ph.Calls, c)
 	}
-	abandon := func() {
-		ph.Watchdog = true
+	endCtx := func(c *callRec) {
+		c.cancel()
+		if c.CancelDoneSeq == 0 {
+			c.CancelDoneSeq = mon.Seq()
+		}
+	}
+	abandon := func(res settleResult) {
+		if res.frozen {
+			ph.Frozen = res.where
+		} else {
+			ph.Watchdog = true
+		}
+		for _, c := range ph.Calls {
+			c.doResume()
+		}
 		rx.srv.ReleaseAll()
 		for _, c := range ph.Calls {
 			c.cancel()
 		}
 		ph.Downloads = rx.srv.Log()
 	}
-	settled := false
 	for _, a := range ps.Actions {
-		settled = false
 		switch a.Op {
 		case "arrive":
 			c := ph.Calls[a.I]
 			if !c.Launched {
 				rx.launch(c)
 			}
+		case "arrive-held":
+			c := ph.Calls[a.I]
+			if !c.Launched {
+				rx.launchHeld(c, a.K)
+			}
+		case "resume":
+			ph.Calls[a.I].doResume()
 		case "cancel":
 			c := ph.Calls[a.I]
 			if c.CancelSeq == 0 {
 				c.CancelPoint = rx.cancelPoint(ph, c)
 				c.CancelSeq = mon.Seq()
-				c.cancel()
+				endCtx(c)
 			}
 		case "release":
 			rx.srv.Release(a.I)
@@ -393,54 +599,69 @@ func (rx *roundExec) runPhase(ps phaseSpec) (*phaseRec, bool) {
 		}
 		if !a.NoSettle {
 			res := rx.settle(ph)
-			if res.timedOut {
-				abandon()
+			if res.timedOut || res.frozen {
+				abandon(res)
 				return ph, false
 			}
-			settled = true
 			if res.deadlock {
 				ph.Deadlock = fmt.Sprintf("after action %s(%d): %d callers with live contexts are parked in keysFromRemote, no download goroutine exists and no request is pending at the endpoint", a.Op, a.I, res.parked)
 				break
 			}
+			if n := rx.srv.InFlight(); n > 1 {
+				ph.Overlap = fmt.Sprintf("after action %s(%d): quiescent with %d downloads of the key set in flight", a.Op, a.I, n)
+				break
+			}
 		}
 	}
-	_ = settled
-	// end of phase: launch whoever the schedule forgot, open all gates, wait for the barrier
+	// end of phase: launch whoever the schedule forgot, let every held caller go, open all gates, wait for the barrier
 	for _, c := range ph.Calls {
 		if !c.Launched {
 			rx.launch(c)
 		}
+		c.doResume()
 	}
-	rx.srv.ReleaseAll()
-	if ph.Deadlock == "" {
+	if ph.Overlap == "" {
+		rx.srv.ReleaseAll()
+	}
+	if ph.Deadlock == "" && ph.Overlap == "" {
 		res := rx.settle(ph)
-		if res.timedOut {
-			abandon()
+		if res.timedOut || res.frozen {
+			abandon(res)
 			return ph, false
 		}
 		if res.deadlock || res.parked > 0 {
 			ph.Deadlock = fmt.Sprintf("at the end of the phase (all gates open): %d callers with live contexts are parked in keysFromRemote, no download goroutine exists and no request is pending at the endpoint", res.parked)
 		}
 	}
-	// free whatever is still parked (only after a deadlock witness), then wait for every caller
+	// end every context (this frees whoever is still parked after a deadlock / overlap witness), then wait until every
+	// caller has returned - or is seen, state-based, not to react to the end of its own context
 	for _, c := range ph.Calls {
-		c.cancel()
+		endCtx(c)
 	}
-	deadline := time.After(watchdog)
-	for _, c := range ph.Calls {
-		select {
-		case <-c.done:
-		case <-deadline:
-			abandon()
-			return ph, false
-		}
+	res := rx.settle(ph)
+	if res.timedOut || res.frozen {
+		abandon(res)
+		return ph, false
 	}
-	if ph.Deadlock != "" {
-		// let a possibly remaining download goroutine finish before the next phase
-		if res := rx.settle(ph); res.timedOut {
-			abandon()
-			return ph, false
+	for i, c := range ph.Calls {
+		if c.returned.Load() {
+			<-c.done
+			if c.preemptDone != nil {
+				<-c.preemptDone
+				if c.preRes.Reached {
+					c.HeldAt = c.preRes.At
+					if c.HeldSeq == 0 {
+						c.HeldSeq = c.heldSeq.Load()
+					}
+				}
+			}
+			continue
 		}
+		// Still blocked although its context has ended and nothing is left that could wake it. The goroutine is left
+		// behind; its record is replaced by a copy without the fields only that goroutine writes.
+		ph.Calls[i] = &callRec{ID: c.ID, Kind: c.Kind, Tok: c.Tok, CancelSeq: c.CancelSeq, CancelDoneSeq: c.CancelDoneSeq, CancelPoint: c.CancelPoint,
+			ByDeadline: c.ByDeadline, Launched: true, ParkedSeq: c.ParkedSeq, IgnoredCancelSeq: c.IgnoredCancelSeq, IgnoredWhere: c.IgnoredWhere,
+			NeverReturned: true, HoldK: c.HoldK, ResumeSeq: c.ResumeSeq, gid: c.gid}
 	}
 	ph.Downloads = rx.srv.Log()
 	for _, d := range ph.Downloads {
@@ -454,6 +675,19 @@ func (rx *roundExec) runPhase(ps phaseSpec) (*phaseRec, bool) {
 	return ph, true
 }
 
+// wedged: the key set is in a state in which later phases would only repeat the finding.
+func (ph *phaseRec) wedged() bool {
+	if ph.Deadlock != "" || ph.Overlap != "" {
+		return true
+	}
+	for _, c := range ph.Calls {
+		if c.NeverReturned {
+			return true
+		}
+	}
+	return false
+}
+
 // runRound executes all phases on a fresh remote key set.
 func runRound(spec roundSpec) (*roundRec, bool) {
 	rx := newRoundExec(spec)
@@ -464,8 +698,8 @@ func runRound(spec roundSpec) (*roundRec, bool) {
 		if !ok {
 			return rr, false
 		}
-		if ph.Deadlock != "" {
-			break // the key set is wedged; later phases would only repeat the finding
+		if ph.wedged() {
+			break // later phases would only repeat the finding
 		}
 	}
 	return rr, true
